@@ -49,7 +49,8 @@ vars  == <<cvars, bvars, tvars, cmap, viol>>
 \*   slow                   : statement that runs longer than the pool's statement_timeout
 \*   local                  : a Sync-terminated batch the pooler answers itself (a lone Sync, or only a Close of a cached
 \*                            statement): nothing is sent to the server, the release decision is taken as usual
-FirstKinds == {"begin", "stmt", "fail", "set", "prep", "copyin", "copyin2", "big", "slow", "local"}
+\*   reset1                 : RESET of ONE setting (not the one a "set" changed): the session is as dirty as before
+FirstKinds == {"begin", "stmt", "fail", "set", "prep", "copyin", "copyin2", "big", "slow", "local", "reset1"}
 \*   copyfail               : CopyFail - the COPY ends with an ErrorResponse instead of CommandComplete
 Kinds == FirstKinds \cup {"commit", "copydone", "copyfail"}
 
@@ -172,7 +173,9 @@ Exec(c, s, k, loops) ==
                                       ELSE ncopy = "in"]
      /\ bData' = [bData EXCEPT ![s] = two /\ ~loops]
      \* cleanup_state: marked on every SET (deviation: only when believed outside a transaction)
-     /\ dirty' = [dirty EXCEPT ![s] = @ \/ (k = "set" /\ tCopy[s] = "no" /\ tTx[s] # "E"
+     \* (deviation reset_clears_dirty: the CommandComplete tag RESET - also that of RESET <one setting> - clears the mark)
+     /\ dirty' = [dirty EXCEPT ![s] = IF k = "reset1" /\ "reset_clears_dirty" \in Dev THEN FALSE ELSE
+                                          @ \/ (k = "set" /\ tCopy[s] = "no" /\ tTx[s] # "E"
                                               /\ (~bTx[s] \/ "set_in_tx_not_marked" \notin Dev))
                                           \/ (k = "prep" /\ tCopy[s] = "no" /\ tTx[s] # "E"
                                               /\ "prepare_not_marked" \notin Dev)]
@@ -390,7 +393,7 @@ BeliefSound ==
 Deviations == {"putback_reuses_unclean", "copydone_single_recv", "copydone_no_copy_check", "set_in_tx_not_marked",
                "reset_before_rollback", "timeout_keeps_connection", "failed_tx_counts_as_idle", "prepare_not_marked",
                "session_mode_releases", "no_rollback_at_checkin", "no_reset_at_checkin", "map_kept_after_release",
-               "early_return_leaks_guard", "error_keeps_copy_mode", "timeout_marks_bad_after_write", "local_batch_keeps_server"}
+               "early_return_leaks_guard", "error_keeps_copy_mode", "timeout_marks_bad_after_write", "local_batch_keeps_server", "reset_clears_dirty"}
 
 Quiescent == \A c \in Clients : pc[c] \in {"off", "idle", "gone"}
 
